@@ -21,8 +21,12 @@ while args:
     node.name = name
     node.decorator_list = []
     node.returns = None
-    for a in node.args.args + node.args.kwonlyargs + node.args.posonlyargs + ([node.args.vararg] if node.args.vararg else []) + ([node.args.kwarg] if node.args.kwarg else []):
-        a.annotation = None
+    for fn in ast.walk(node):
+        if isinstance(fn, (ast.FunctionDef, ast.Lambda)):
+            for a in fn.args.args + fn.args.kwonlyargs + fn.args.posonlyargs + ([fn.args.vararg] if fn.args.vararg else []) + ([fn.args.kwarg] if fn.args.kwarg else []):
+                a.annotation = None
+            if isinstance(fn, ast.FunctionDef):
+                fn.returns = None
     for n in ast.walk(node):
         if isinstance(n, (ast.FunctionDef, ast.ClassDef)) and n.body and isinstance(n.body[0], ast.Expr) and isinstance(n.body[0].value, ast.Constant) and isinstance(n.body[0].value.value, str):
             n.body = n.body[1:] or [ast.Pass()]
